@@ -1629,6 +1629,11 @@ CATALOGUE = {
     'gMonth': ['--01', '--12', '--13', '--00', '--1', '--01Z', '--01+14:00', '--01-14:00', '--01--', '--12--', '--01+14:01', '-01', '--001'],
 }
 
+# every character of the base64 alphabet in the position before the padding: of the final quantum "XY==" only Y in [AQgw]
+# (four low bits zero), of "XYZ=" only Z with the two low bits zero are in the lexical space (E2-54: B04, B16)
+_B64 = 'ABCDEFGHIJKLMNOPQRSTUVWXYZabcdefghijklmnopqrstuvwxyz0123456789+/'
+CATALOGUE['base64Binary'] += ['A%s==' % c for c in _B64] + ['AA%s=' % c for c in _B64] + ['AAAAA%s==' % c for c in 'EIMUYcko048']
+
 
 def literals_for(r, tname, n):
     """n (literal, source-tag) pairs for built-in type tname (values are RAW: white space processing still to apply)"""
